@@ -2,6 +2,7 @@ import FluteModel.Drv.Util
 import FluteModel.Recv
 import FluteModel.RecvMini
 import FluteModel.RecvFull
+import FluteModel.RecvWire
 /-
   Line-protocol driver of engine `recv` (model side).  `Recv` instantiated with the `Mini` object.
 
@@ -12,7 +13,10 @@ import FluteModel.RecvFull
     recv pkt <now> <hex> <toi> <co> <cs> <fdtid|-> <sct|-> <fec:esl:msbl:len|-> <sbn:esi|-> <plen> <ans..>
          ans = X                                  (XML parser error)
              | A <utf8> <expiresHex> <files>      files = - (no File list) | = (empty) | f,f,..
-               f = <toiHex>/<cc>/<tlen>/<oti>     cc = n|nc|ms|e<ntpSecs>   oti = -|fec:esl:msbl
+               f = <toiHex>/<cc>/<tlen>/<oti>/<cl|->/<cenc>   cc = n|nc|ms|e<ntpSecs>
+                   oti = -|fec:esl:msbl:parity:<ss>   ss = -|kind.a.b.c   (4-field f / 3-field oti still read)
+         the packet the model runs on is `Recv.ofAlc` of <hex> parsed by the parser model; the printed fields must
+         agree with it (answer marked ` ABS:fields` / ` ABS:classify` otherwise); same check for rej / tsi lines
     recv cleanup <now> <stale>
     recv isexp <elapsed>                                             -> exp 0|1
     recv fz ... | recv fzc ... | recv iso <now> <hex,hex..>           -> fz   (opaque robustness ops, not modelled; iso = in a child process)
@@ -44,10 +48,23 @@ def optInt? (s : String) : Option (Option Int) :=
 def hexStr? (s : String) : Option String :=
   (unhex s).map fun bs => String.ofList (bs.map Char.ofNat)
 
+def ss? (s : String) : Option (Option (Nat × Nat × Nat × Nat)) :=
+  if s = "-" then some none else
+  match (s.splitOn ".").mapM nat? with
+  | some [k, a, b, c] => some (some (k, a, b, c))
+  | _ => none
+
 def oti? (s : String) : Option (Option Oti) :=
   if s = "-" then some none else
-  match (s.splitOn ":").mapM nat? with
-  | some [fec, esl, msbl] => some (some { fec, esl, msbl })
+  match s.splitOn ":" with
+  | [fec, esl, msbl] =>
+    match nat? fec, nat? esl, nat? msbl with
+    | some fec, some esl, some msbl => some (some { fec, esl, msbl })
+    | _, _, _ => none
+  | [fec, esl, msbl, par, ss] =>
+    match nat? fec, nat? esl, nat? msbl, nat? par, ss? ss with
+    | some fec, some esl, some msbl, some parity, some ss => some (some { fec, esl, msbl, parity, ss })
+    | _, _, _, _, _ => none
   | _ => none
 
 def fti? (s : String) : Option (Option Fti) :=
@@ -77,6 +94,14 @@ def file? (s : String) : Option FileAbs :=
     let tlen ← nat? l
     let oti ← oti? o
     pure { toi, cc, tlen, oti }
+  | [t, c, l, o, cl, ce] => do
+    let toi ← hexStr? t
+    let cc ← cc? c
+    let tlen ← nat? l
+    let oti ← oti? o
+    let contentLength ← optNat? cl
+    let cenc ← nat? ce
+    pure { toi, cc, tlen, oti, contentLength, cenc }
   | _ => none
 
 def files? (s : String) : Option (Option (List FileAbs)) :=
@@ -175,6 +200,28 @@ def stale? (s : String) : Option Stale :=
       else none
     | _ => none
 
+/-- the TSI of the engine's receiver -/
+def engineTsi : Nat := 1
+
+/-- The packet the model runs on is `Recv.ofAlc` of the datagram bytes parsed by the parser model
+    (`classify`, RecvWire.lean) - EXT_CENC, parity and scheme-specific info come from there; the fields
+    the engine printed (taken from the REAL parser) must be the same, otherwise the line is marked. -/
+def absPkt (p : Pkt) : Pkt × String :=
+  match classify engineTsi p.raw with
+  | .ok (.pkt q) =>
+    if q.toi = p.toi ∧ q.closeObject = p.closeObject ∧ q.closeSession = p.closeSession ∧ q.fdtId = p.fdtId ∧
+       q.sct = p.sct ∧ q.pid = p.pid ∧ q.plen = p.plen ∧ q.dlen = p.dlen ∧
+       q.fti.map (fun f => (f.oti.fec, f.oti.esl, f.oti.msbl, f.len)) =
+         p.fti.map (fun f => (f.oti.fec, f.oti.esl, f.oti.msbl, f.len)) then (q, "")
+    else (p, " ABS:fields")
+  | _ => (p, " ABS:classify")
+
+/-- a datagram the engine saw rejected / of another TSI: the parser model must say the same -/
+def absOther (hx : String) (want : Parsed → Bool) : String :=
+  match classify engineTsi ((unhex hx).getD []) with
+  | .ok pd => if want pd then "" else " ABS:classify"
+  | .error _ => " ABS:parser-panic"
+
 def step (d : DState) (args : List String) : DState × String :=
   match args with
   | "fz" :: _ => (d, "fz")
@@ -197,20 +244,25 @@ def step (d : DState) (args : List String) : DState × String :=
   | none => (d, "bad-op")
   | some s =>
     match args with
-    | ["rej", now, _] =>
+    | ["rej", now, hx] =>
       match int? now with
-      | some now => runOp d s (.data .reject now .err)
+      | some now =>
+        let r := runOp d s (.data .reject now .err)
+        (r.1, r.2 ++ absOther hx (fun pd => match pd with | .reject => true | _ => false))
       | none => (d, "bad-op")
-    | ["tsi", now, _] =>
+    | ["tsi", now, hx] =>
       match int? now with
-      | some now => runOp d s (.data .otherTsi now .err)
+      | some now =>
+        let r := runOp d s (.data .otherTsi now .err)
+        (r.1, r.2 ++ absOther hx (fun pd => match pd with | .otherTsi => true | _ => false))
       | none => (d, "bad-op")
     | "pkt" :: now :: hx :: toi :: co :: cs :: fid :: sct :: fti :: pid :: plen :: ans =>
       match int? now, nat? toi, bool? co, bool? cs, optNat? fid, optInt? sct, fti? fti, pid? pid, nat? plen, ans? ans with
       | some now, some toi, some co, some cs, some fid, some sct, some fti, some pid, some plen, some ans =>
-        runOp d s (.data (.pkt { toi, closeObject := co, closeSession := cs, fdtId := fid, sct, fti, pid, plen,
-                                 dlen := hx.length / 2,
-                                 raw := (unhex hx).getD [] }) now ans)
+        let a := absPkt { toi, closeObject := co, closeSession := cs, fdtId := fid, sct, fti, pid, plen,
+                          dlen := hx.length / 2, raw := (unhex hx).getD [] }
+        let r := runOp d s (.data (.pkt a.1) now ans)
+        (r.1, r.2 ++ a.2)
       | _, _, _, _, _, _, _, _, _, _ => (d, "bad-op")
     | ["cleanup", now, stale] =>
       match int? now, stale? stale with
